@@ -119,7 +119,7 @@ def trace_validate(res, name, K, n_traces, n_calls, invariants=None):
         res.sample({'recorded_trace_first_events': [[e['op'], e['a1'], e['a2'], e['ret']] for e in traces[0]['events'][:8]]})
     bad = copy.deepcopy(traces[:1])
     k = next((i for i, e in enumerate(bad[0]['events']) if e['entities']), None)
-    if k is not None:
+    if k is not None and not rej:       # (a rejected recording is reported as it is: the self-test needs a sound trace)
         bad[0]['events'][k]['entities'] = bad[0]['events'][k]['entities'][:-1]
         r2 = tracecheck.validate(res, gen, name + '-corrupted', bad, consts, overrides=ov)
         res.cov['trace_validation'][name]['corrupted_trace_rejected_at_event'] = r2[0][1] if r2 else None
